@@ -17,6 +17,11 @@ func share(prop, id, from, why string) {
 		if registry[i].ID == from {
 			src := registry[i]
 			reg(prop, id, src.Template, why+" [= "+from+": "+src.Desc+"]", src.Run)
+			origin := src.Origin
+			if origin == "" {
+				origin = src.ID
+			}
+			registry[len(registry)-1].Origin = origin
 			return
 		}
 	}
